@@ -438,8 +438,54 @@ def r5_manual_entry(ctx, chk, rule="C11.5"):
                           construct="create_sg_from_board table %s" % t)
 
 
+def r6_writer_reader_agreement(ctx, chk, rule="C11.6"):
+    """The generator's vocabulary agrees with the solver's: owner strings are the solver's player constants and the
+    keys of an emitted game are exactly the keyword parameters StochasticGame(**game) takes (run_games adds prune_states)."""
+    tad = ctx.prog.mod("tad.py")
+    players = set()
+    for name in ("PLAYER_1", "PLAYER_2", "PROBABILISTIC"):
+        ok, v = ctx.prog.try_const(ast.Name(id=name, ctx=ast.Load()), tad)
+        if not ok:
+            chk.undecided(rule, "tad.py", "constant %s missing" % name)
+            return
+        players.add(v)
+    init = ctx.func("tad.py::StochasticGame.__init__")
+    params = [p for p in init.params if p != "self"]
+    required = [p for p in params if p not in init.defaults]
+    for gname in "ABC":
+        try:
+            G = C08.game(ctx, gname)
+        except (Undecided, AnalysisError) as e:
+            chk.undecided(rule, C08.GAMES[gname], str(e))
+            continue
+        where = "roberta_generator.py %s" % G.func.name
+        keys = sorted(G.dict)
+        missing = [p for p in required if p not in keys]
+        unknown = [k for k in keys if k not in params]
+        if missing or unknown:
+            chk.violation(rule, where, "game %s is emitted with keys %s; StochasticGame(**game) requires %s and accepts %s: %s" % (
+                gname, keys, required, params, ("missing %s" % missing) if missing else ("unknown %s raises TypeError in the batch runner" % unknown)),
+                expected=required, found=keys, construct="%s game keys" % gname)
+        else:
+            chk.ok(rule, where, "game %s: keys %s are the constructor's required keyword parameters" % (gname, keys))
+        case = position_cases()[-1]
+        try:
+            owners = {v[1] for v, _ in G.segments("players", case) if is_const(v)}
+            nonconst = [v for v, _ in G.segments("players", case) if not is_const(v)]
+        except Undecided as e:
+            chk.undecided(rule, where, str(e))
+            continue
+        bad = sorted(o for o in owners if o not in players)
+        if bad or nonconst:
+            chk.violation(rule, where, "game %s names the owners %s; the solver only accepts %s" % (gname, bad or [show(x) for x in nonconst], sorted(players)),
+                          expected=sorted(players), found=sorted(owners, key=str), construct="%s owner names" % gname)
+        else:
+            chk.ok(rule, where, "game %s: owner names %s are the solver's player constants" % (gname, sorted(owners)))
+
+
 def run(ctx, chk):
     r5_manual_entry(ctx, chk)
+    r6_writer_reader_agreement(ctx, chk)
     gts = r1_template(ctx, chk)
     r2_replace_chain(ctx, chk, gts)
     r3_wellformed(ctx, chk)
